@@ -1,0 +1,14 @@
+//go:build verif
+
+package engine
+
+// VerifSchedulePoint, if set, is called by every worker of the parallel parser
+// just before it delivers its result (batch index, number of batches). A harness
+// can block in it to force a particular arrival order.
+var VerifSchedulePoint func(int, int)
+
+func verifSchedulePoint(i int, n int) {
+	if VerifSchedulePoint != nil {
+		VerifSchedulePoint(i, n)
+	}
+}
